@@ -139,5 +139,7 @@ func isIPv6(addr string) bool {
 	if ip == nil {
 		return false
 	}
-	return ip.To4() == nil
+	// An IPv4-mapped IPv6 address like "::ffff:1.2.3.4" is written in IPv6
+	// notation and needs the brackets as well.
+	return ip.To4() == nil || strings.Contains(host, ":")
 }
